@@ -79,13 +79,12 @@ impl Display for TokenKind {
             TokenKind::Lit(_) => "literal",
             TokenKind::Dir(_) => "preprocessor directive",
             TokenKind::Reg(_) => "register",
-            TokenKind::Whitespace
-            | TokenKind::Comment
-            | TokenKind::Eof
-            | TokenKind::Byte(_)
-            | TokenKind::Breakpoint => {
-                unreachable!("whitespace, comment, eof, byte, breakpoint attempted to be displayed")
-            }
+            // These may be displayed when a directive is used in place of an operand
+            TokenKind::Byte(_) => "data directive",
+            TokenKind::Breakpoint => "breakpoint directive",
+            TokenKind::Whitespace => "whitespace",
+            TokenKind::Comment => "comment",
+            TokenKind::Eof => "end of file",
         };
         f.write_str(lit)
     }
